@@ -298,6 +298,15 @@ def run_shard(ctx, spec):
                 ctx.case(("vd", v), cls="b64:decode-vs-reference" + ("" if rb.canonical(v.decode()) else ":noncanonical"))
                 _record(ctx, "vd", f, {"kind": "b64valid", "text": v.decode()})
         drive(ctx, "invalid", valid, body, 40 if ctx.tier == "quick" else 400)
+        # a foreign character followed by what some other transport encoding would read as an escape of an alphabet character or of
+        # '=' (percent escapes, backslash escapes, entities): still a foreign character
+        for prefix in (b"", b"QU", b"QUJD", b"QUJDR"):
+            for esc in [b"%%%02X" % c for c in (0x41, 0x4A, 0x51, 0x61, 0x7A, 0x30, 0x39, 0x2D, 0x5F, 0x3D)] + [b"%4a", b"%3d", b"%3D%3D", b"\\x41", b"&#65;", b"%2D", b"%5f"]:
+                for suffix in (b"", b"D", b"JD", b"UJD"):
+                    t = prefix + esc + suffix
+                    f = case_b64_invalid(t)
+                    ctx.case(("esc", t), cls="b64:invalid-char-rejected")
+                    _record(ctx, "esc", f, {"kind": "b64invalid", "text_hex": t.hex()})
         ctx.samples.append({"fn": "b64-invalid", "example": "each of 192 non-alphabet bytes at each position of a generated valid encoding"})
     elif part == "ints":
         around = st.builds(lambda k, d: 256 ** k + d, st.integers(0, 512), st.sampled_from([-1, 0, 1, 2, 255]))
